@@ -260,7 +260,10 @@ def obligations(tier, seed):
     obs.append(AssemblyOb(("values", "drop"), "tsql", tsql_mode=True, same_text=True))
     for o in obs:
         if isinstance(o, AssemblyOb):
-            o.budget = 4 if tier == "quick" else 6
+            # free names per script: 4 quick; thorough 6 for pairs, 5 for longer scripts (measured: 6 free names over 3-4
+            # statements is ~1600 paths x 0.5 s with every witness replayed)
+            o.budget = 4 if tier == "quick" else (6 if len(o.kinds) <= 2 else 5)
+            o.budget_s = 1500
     seen, out = set(), []
     for o in obs:
         if o.key not in seen:
